@@ -538,6 +538,14 @@ Section SivThms.
     - unfold daead_decrypt. rewrite split_key_bad by assumption. discriminate.
   Qed.
 
+  Theorem daead_rejects_non_encryptions v id key c ad : length key = 64%nat ->
+    (forall p, daead_encrypt AES v id key p ad <> Ok c) -> daead_decrypt AES v id key c ad = Err.
+  Proof.
+    intros H Hn. destruct (daead_decrypt AES v id key c ad) as [p| |] eqn:Hd; [|reflexivity|].
+    - apply daead_exact_acceptance in Hd; [|assumption]. destruct (Hn p Hd).
+    - destruct (daead_decrypt_no_panic _ _ _ _ _ Hd).
+  Qed.
+
   Theorem daead_encrypt_total v id key pt ad :
     (length key = 64%nat -> exists c, daead_encrypt AES v id key pt ad = Ok c
         /\ length c = (length (output_prefix v id) + 16 + length pt)%nat) /\
